@@ -429,7 +429,11 @@ func rapidBlock(total, wsum int) int {
 func TestC37(t *testing.T) {
 	rec := ev.New("C37", "flood patterns: socket buffer size, warm-up traffic, earlier stall/drain phases, then the client stops reading and sends limit+slack+2000 frames: pure PING / malformed-HEADERS (RST_STREAM) / DATA-on-reset-stream (RST_STREAM[+WINDOW_UPDATE]) / SETTINGS floods and weighted mixes. non-trivial: the client is stalled before the flood (the reading-client control pattern is trivial); distinct by pattern")
 	// deterministic patterns first: one pure flood per kind with the smallest and a large socket buffer
-	for _, k := range c37Kinds {
+	kinds := c37Kinds
+	if sh := os.Getenv("VERIF_SHARD"); sh != "" && sh != "0" { // deterministic patterns: one shard runs them
+		kinds = nil
+	}
+	for _, k := range kinds {
 		for _, capb := range []int{1, 65536} {
 			if ev.Tier() == "quick" && capb != 1 && k != "ping" {
 				continue
